@@ -26,6 +26,11 @@ class Deadlock(Exception):
     pass
 
 
+class SchedAbort(SystemExit):
+    """Raised in a parked client thread when the run is abandoned (distinct from
+    a SystemExit the library itself may raise, e.g. argparse in a CLI helper)."""
+
+
 class RandomWalk:
     name = "random_walk"
 
@@ -178,7 +183,7 @@ class Scheduler:
         if cur is not None and self.state[cur] != "done":
             self.sems[cur].acquire()
             if self.abort:
-                raise SystemExit
+                raise SchedAbort
 
     def block(self, cur, key, pred):
         """Park `cur` until pred() holds (evaluated at later decisions)."""
